@@ -1552,6 +1552,21 @@ func (e *Exec) expand(c *Cmd, out *bufio.Writer) {
 			}
 			emit(fmt.Sprintf("writeto %s wtmp fail=%d full=%d", seg, l, full))
 		}
+		// the same into the caller's own buffered writer (smaller and larger than the 4096 bytes at
+		// which bufio re-uses a writer instead of wrapping it), flushed by the caller: a fault in the
+		// tail must come back from WriteTo or from that flush, and without a fault every byte arrives
+		bsizes := []int{16, 1024, 4095, 4096, 8192}
+		k := 0
+		for _, l := range sortedInts(limits) {
+			if l < 0 || (l < full-300 && l%7 != 0) {
+				continue
+			}
+			emit(fmt.Sprintf("writeto %s wtmp fail=%d full=%d bufio=%d", seg, l, full, bsizes[k%len(bsizes)]))
+			k++
+		}
+		for _, bs := range bsizes {
+			emit(fmt.Sprintf("writeto %s wtmp bufio=%d", seg, bs))
+		}
 	case "mergefaults", "mergecancel":
 		file := c.Pos[0]
 		base := fmt.Sprintf("merge %s segs=%s drops=%s digest=1", file, c.str("segs", "-"), c.str("drops", ""))
